@@ -11,6 +11,7 @@ import traceback
 from verif import grammar as G
 from verif.bounded import BoundedCheck, BoundedResult, Violation
 from contracts.c13_effects import CONTRACTS as EFFECT_CONTRACTS
+from contracts.c15_build import BuildModel
 from props.parser_bounded import TokeniserDifferential
 from verif.spec import PropertySpec
 
@@ -165,6 +166,13 @@ class ParserTotal(BoundedCheck):
         try:
             Model = fsic.build_model(symbols)
             Model(range(3))
+            leaked_b = {k: sorted(set(v) - names_before[k] - {'__warningregistry__'}) for k, v in namespaces.items() if set(v) - names_before[k] - {'__warningregistry__'}}
+            if leaked_b:
+                for k, nms in leaked_b.items():
+                    for nm in nms:
+                        del namespaces[k][nm]
+                out.append(Violation('building has no effect outside the returned objects (a name appears in a module namespace)', 'c13.side-effect:module-namespace:build', s,
+                                     'no new names', str(leaked_b)[:120], 'no_effect'))
         except BaseException as ex:  # noqa: BLE001
             out.append(Violation('whenever parse_model returns with syntax checking on, build_model succeeds and the class can be instantiated',
                                  f'c13.build-fails:{type(ex).__name__}', s, 'class + instance', f'{type(ex).__name__}: {str(ex)[:60]}', 'build_succeeds'))
@@ -193,7 +201,7 @@ class ParserTotal(BoundedCheck):
 
 NSHARDS = 14
 PROPERTY = PropertySpec(
-    id='C13', contracts=list(EFFECT_CONTRACTS), bounded=[ParserTotal(i, NSHARDS) for i in range(NSHARDS)] + [TokeniserDifferential()], level='other',
+    id='C13', contracts=list(EFFECT_CONTRACTS) + [BuildModel()], bounded=[ParserTotal(i, NSHARDS) for i in range(NSHARDS)] + [TokeniserDifferential()], level='other',
     explanation='Effect contract decided on the ast of the real parse_model / build_model: parse_model exec()s translated statement text with handlers for NameError and '
                 'SyntaxError only (recorded findings F13 / F13b, re-checked on every run); build_model executes only the class-definition text and turns SyntaxError into '
                 'BuildError. Totality, the raises clause on concrete inputs and the statement-count clause are decided by the bounded exhaustive run: every string of '
